@@ -244,6 +244,18 @@ func costFamily(family string, n int) []costCall {
 		}
 		obs := costEncodeObs(p, llo.Observation{UnixTimestampNanoseconds: 3_000_000_000, StreamValues: vals})
 		return []costCall{costValidateCall(p, obs)}
+	case "many-nested-offenders": // n stream values that decode but must be refused: a timestamped value around a timestamped value or a quote
+		vals := make(llo.StreamValues, n)
+		for i := 0; i < n; i++ {
+			d := decimal.New(int64(1000+i), -2)
+			var inner llo.StreamValue = &llo.TimestampedStreamValue{ObservedAtNanoseconds: uint64(i), StreamValue: llo.ToDecimal(d)}
+			if i%2 == 1 {
+				inner = &llo.Quote{Bid: d, Benchmark: d.Add(decimal.New(1, 0)), Ask: d.Add(decimal.New(2, 0))}
+			}
+			vals[uint32(i+1)] = &llo.TimestampedStreamValue{ObservedAtNanoseconds: uint64(i) + 5, StreamValue: inner}
+		}
+		obs := costEncodeObs(p, llo.Observation{UnixTimestampNanoseconds: 3_000_000_000, StreamValues: vals})
+		return []costCall{costValidateCall(p, obs)}
 	case "shared-tsv-stream": // n channels that all aggregate ONE timestamped stream; one byzantine long-digit value
 		prev := llo.Outcome{LifeCycleStage: llo.LifeCycleStageProduction, ObservationTimestampNanoseconds: 2_000_000_000,
 			ChannelDefinitions: llotypes.ChannelDefinitions{}, ValidAfterNanoseconds: map[llotypes.ChannelID]uint64{}}
@@ -262,6 +274,47 @@ func costFamily(family string, n int) []costCall {
 		}
 		obsList := [][]byte{mk(decimal.New(1000, -2), 2_900_000_000), mk(decimal.New(1001, -2), 2_900_000_001),
 			mk(decimal.New(1002, -2), 2_900_000_002), mk(costBigDecimal(900_000, 1, 0), 2_900_000_003)}
+		var aos []types.AttributedObservation
+		total := len(prevB)
+		for i, o := range obsList {
+			aos = append(aos, types.AttributedObservation{Observation: o, Observer: commontypes.OracleID(i)})
+			total += len(o)
+		}
+		return []costCall{{"Outcome", total, func() error {
+			_, err := p.Outcome(context.Background(), ocr3types.OutcomeContext{SeqNr: 3, PreviousOutcome: prevB}, nil, aos)
+			return err
+		}}}
+	case "shared-failing-mode", "repeated-failing-mode":
+		// n channels that all take the mode of ONE stream (or one channel that mentions it n times); nobody agrees:
+		// three observers have no value, one sends long digits (K8)
+		prev := llo.Outcome{LifeCycleStage: llo.LifeCycleStageProduction, ObservationTimestampNanoseconds: 2_000_000_000,
+			ChannelDefinitions: llotypes.ChannelDefinitions{}, ValidAfterNanoseconds: map[llotypes.ChannelID]uint64{}}
+		if family == "repeated-failing-mode" {
+			sts := make([]llotypes.Stream, n)
+			for i := range sts {
+				sts[i] = llotypes.Stream{StreamID: 7, Aggregator: llotypes.AggregatorMode}
+			}
+			prev.ChannelDefinitions[1] = llotypes.ChannelDefinition{ReportFormat: llotypes.ReportFormatJSON, Streams: sts}
+			prev.ValidAfterNanoseconds[1] = 1_000_000_000
+		} else {
+			for c := 1; c <= n; c++ {
+				prev.ChannelDefinitions[uint32(c)] = llotypes.ChannelDefinition{ReportFormat: llotypes.ReportFormatJSON,
+					Streams: []llotypes.Stream{{StreamID: 7, Aggregator: llotypes.AggregatorMode}}}
+				prev.ValidAfterNanoseconds[uint32(c)] = 1_000_000_000
+			}
+		}
+		prevB, err := p.OutcomeCodec.Encode(prev)
+		if err != nil {
+			panic(err)
+		}
+		mk := func(v llo.StreamValue) []byte {
+			vals := llo.StreamValues{8: llo.ToDecimal(decimal.New(5, 0))}
+			if v != nil {
+				vals[7] = v
+			}
+			return costEncodeObs(p, llo.Observation{UnixTimestampNanoseconds: 3_000_000_000, StreamValues: vals})
+		}
+		obsList := [][]byte{mk(nil), mk(nil), mk(nil), mk(llo.ToDecimal(costBigDecimal(900_000, 1, 0)))}
 		var aos []types.AttributedObservation
 		total := len(prevB)
 		for i, o := range obsList {
@@ -662,8 +715,8 @@ func init() {
 		return resOK(out)
 	})
 	RegGen("C19", "cost.measure (implementation only): per family a size-doubling series measured in child processes — nested timestamped values up to 1 MiB, "+
-		"up to 70 000 stream values / quotes, up to 200 000 remove votes and channel definitions, coefficients up to 1 MiB, exponent gaps up to 2^20, "+
-		"errors joined in a loop and formatted (5 definitions × up to 10 000 zero-aggregator streams, up to 4 000 failing definitions, up to 64 000 undecodable stream values in one observation, up to 2 000 channels aggregating one timestamped stream with a long-digit byzantine value, one channel of up to 10 000 streams in the previous outcome, up to 9 998 failing EVM payload values, mercury v3 Report with every consensus failing), "+
+		"up to 70 000 stream values / quotes, up to 10 000 stream values that decode but are refused (timestamped around timestamped / quote), up to 200 000 remove votes and channel definitions, coefficients up to 1 MiB, exponent gaps up to 2^20, "+
+		"errors joined in a loop and formatted (5 definitions × up to 10 000 zero-aggregator streams, up to 4 000 failing definitions, up to 64 000 undecodable stream values in one observation, up to 2 000 channels aggregating one timestamped stream with a long-digit byzantine value, up to 2 000 channels (and one channel with up to 10 000 mentions) taking the mode of one stream on which nobody agrees, one channel of up to 10 000 streams in the previous outcome, up to 9 998 failing EVM payload values, mercury v3 Report with every consensus failing), "+
 		"and the F2 witness capped at 3 s; callbacks: ValidateObservation, ObservationCodec.Decode, Median/Quote/ModeAggregator, Outcome, Reports, Quote.IsValid, evm.CalculateFee; "+
 		"non-trivial = at least one callback measured", genC19Measure)
 	RegMonitor("C19", monC19Measure)
@@ -693,6 +746,7 @@ func genC19Measure(g *G) {
 		m("many-values", append(doubling(625, 40000), 70000), []int{625, 1250, 2500, 5000, 10000})
 		m("many-quotes", doubling(625, 20000), nil)
 		m("many-tsv", doubling(625, 40000), nil)
+		m("many-nested-offenders", doubling(625, 10000), nil)
 		m("vote-lists", doubling(3125, 200000), nil)
 		m("many-defs", doubling(1250, 40000), nil)
 		m("big-def", doubling(5000, 160000), nil)
@@ -702,6 +756,8 @@ func genC19Measure(g *G) {
 		m("verify-errors-defs", append(doubling(125, 2000), 4000), nil)
 		m("decode-errors", doubling(1000, 64000), nil)
 		m("shared-tsv-stream", []int{250, 500, 1000, 2000}, nil)
+		m("shared-failing-mode", []int{250, 500, 1000, 2000}, nil)
+		m("repeated-failing-mode", []int{1250, 2500, 5000, 10000}, nil)
 		m("wide-channel", []int{1250, 2500, 5000, 10000}, nil)
 		m("evm-payload-errors", append(doubling(125, 8000), 9998), nil)
 		m("mercury-report-errors", []int{1}, nil)
@@ -710,6 +766,7 @@ func genC19Measure(g *G) {
 		m("nested1-bigvalue", []int{1 << 17, 1 << 19}, nil)
 		m("many-values", []int{5000, 10000, 70000}, []int{5000, 10000})
 		m("many-quotes", []int{10000, 20000}, nil)
+		m("many-nested-offenders", []int{2500, 10000}, nil)
 		m("vote-lists", []int{100000, 200000}, nil)
 		m("many-defs", []int{20000, 40000}, nil)
 		m("big-def", []int{80000, 160000}, nil)
@@ -719,6 +776,8 @@ func genC19Measure(g *G) {
 		m("verify-errors-defs", []int{500, 2000}, nil)
 		m("decode-errors", []int{2000, 8000, 64000}, nil)
 		m("shared-tsv-stream", []int{500, 2000}, nil)
+		m("shared-failing-mode", []int{500, 2000}, nil)
+		m("repeated-failing-mode", []int{2500, 10000}, nil)
 		m("wide-channel", []int{2500, 10000}, nil)
 		m("evm-payload-errors", []int{500, 2000, 9998}, nil)
 		m("mercury-report-errors", []int{1}, nil)
